@@ -568,3 +568,29 @@ K('C12', 'weight-merge-pass-on-domain-order', [(JT, "        complete = nx.Graph
                                                (JT, "            wgt = len(set(c1) & set(c2))\n", "            wgt = overlap(c1, c2)\n")], 'tree-connected')
 T('C12', 'weight-merge-pass-on-sorted-copies', [(JT, "        complete = nx.Graph()\n", _MERGE.replace("            i = j = n = 0\n", "            c1, c2 = sorted(c1), sorted(c2)\n            i = j = n = 0\n") + "        complete = nx.Graph()\n"),
                                                 (JT, "            wgt = len(set(c1) & set(c2))\n", "            wgt = overlap(c1, c2)\n")])
+
+# ------------------------------------------------------------------ round 5 rules
+_GBP_OLD = "            #self.messages = new\n            for ru, rd in self.message_order:\n                self.messages[ru,rd] = 0.5*self.messages[ru,rd] + 0.5*new[ru,rd]\n"
+K('C16', 'gbp-stops-on-small-change', [(RG, _GBP_OLD, "            #self.messages = new\n            change = 0.0\n            for ru, rd in self.message_order:\n                change = max(change, np.abs(new[ru,rd].values - self.messages[ru,rd].values).max())\n"
+                                        "                self.messages[ru,rd] = 0.5*self.messages[ru,rd] + 0.5*new[ru,rd]\n            if change < 1e-8: break\n")], 'sweep-termination')
+T('C16', 'gbp-stops-at-fixed-point', [(RG, _GBP_OLD, "            #self.messages = new\n            same = True\n            for ru, rd in self.message_order:\n                same = same and np.array_equal(new[ru,rd].values, self.messages[ru,rd].values)\n"
+                                       "                self.messages[ru,rd] = 0.5*self.messages[ru,rd] + 0.5*new[ru,rd]\n            if same: break\n")])
+_AXES_OLD = "        return tuple(self.attrs.index(a) for a in attrs)\n"
+K('C14', 'axes-memo-keyed-by-set', [(DOM, "        self.config = dict(zip(attrs, shape))\n", "        self.config = dict(zip(attrs, shape))\n        self._axes_memo = {}\n"),
+                                    (DOM, _AXES_OLD, "        key = frozenset(attrs)\n        if key not in self._axes_memo:\n            self._axes_memo[key] = tuple(self.attrs.index(a) for a in attrs)\n        return self._axes_memo[key]\n")], 'memo-key')
+T('C14', 'axes-memo-keyed-by-tuple', [(DOM, "        self.config = dict(zip(attrs, shape))\n", "        self.config = dict(zip(attrs, shape))\n        self._axes_memo = {}\n"),
+                                      (DOM, _AXES_OLD, "        key = tuple(attrs)\n        if key not in self._axes_memo:\n            self._axes_memo[key] = tuple(self.attrs.index(a) for a in key)\n        return self._axes_memo[key]\n")])
+K('C14', 'axes-memo-on-the-class', [(DOM, "class Domain:\n", "class Domain:\n    _axes_memo = {}\n"),
+                                    (DOM, _AXES_OLD, "        key = tuple(attrs)\n        if key not in self._axes_memo:\n            self._axes_memo[key] = tuple(self.attrs.index(a) for a in key)\n        return self._axes_memo[key]\n")], 'memo-key')
+K('C20', 'worst-approximated-subtracts-in-place', [(MWEM, "        errors = np.append(errors, np.abs(x - xest).sum()-bias)\n", "        x -= xest\n        errors = np.append(errors, np.abs(x).sum()-bias)\n")], 'inputs-unmodified')
+T('C20', 'worst-approximated-subtracts-into-estimate', [(MWEM, "        errors = np.append(errors, np.abs(x - xest).sum()-bias)\n", "        xest -= x\n        errors = np.append(errors, np.abs(xest).sum()-bias)\n")])
+K('C10', 'sub-selection-on-the-difference', [(F, "        other = Factor(other.domain, np.where(other.values==-np.inf, 0, -other.values))\n        return self + other",
+                                               "        newdom = self.domain.merge(other.domain)\n        a, b = self.expand(newdom), other.expand(newdom)\n        return Factor(newdom, np.where(np.isneginf(b.values), 0, a.values - b.values))")], 'inf-guard')
+T('C10', 'sub-selection-on-the-subtrahend', [(F, "        other = Factor(other.domain, np.where(other.values==-np.inf, 0, -other.values))\n        return self + other",
+                                               "        newdom = self.domain.merge(other.domain)\n        a, b = self.expand(newdom), other.expand(newdom)\n        return Factor(newdom, a.values - np.where(np.isneginf(b.values), 0, b.values))")])
+K('C12', 'junction-tree-drops-equal-cliques', [(JT, "        self.cliques = [tuple(cl) for cl in cliques]\n",
+                                                "        cliques = [tuple(cl) for cl in cliques]\n        self.cliques = [c for i, c in enumerate(cliques) if not any(set(c) <= set(o) for j, o in enumerate(cliques) if j != i)]\n")], 'graph-from-cliques')
+T('C12', 'junction-tree-drops-nested-cliques', [(JT, "        self.cliques = [tuple(cl) for cl in cliques]\n",
+                                                 "        cliques = [tuple(cl) for cl in cliques]\n        self.cliques = [c for c in cliques if not any(set(c) < set(o) for o in cliques)]\n")])
+K('C14', 'datavector-memory-order', [(F, "            return self.values.flatten()\n", "            return self.values.ravel(order='A')\n")], 'axis-by-name')
+T('C14', 'datavector-explicit-row-major', [(F, "            return self.values.flatten()\n", "            return self.values.flatten(order='C')\n")])
